@@ -418,7 +418,35 @@ func runLeaderCase(rng *rand.Rand, thorough bool, out *bufio.Writer, st *stats, 
 				break
 			}
 			if after == 1 {
-				// whatever is still travelling to the followers is lost: the routines see their stop signal
+				// the replication routines have not noticed yet: requests still travelling are answered
+				// (acknowledged) once more, and whatever such a routine sends next is observed - it must
+				// still speak for the term this server led, not for the term it has moved to
+				lt.mu.Lock()
+				var ps []int
+				for p := range lt.pendAE {
+					ps = append(ps, p)
+				}
+				lt.mu.Unlock()
+				sort.Ints(ps)
+				for _, p := range ps {
+					if rng.Intn(2) == 0 {
+						continue
+					}
+					lt.mu.Lock()
+					rec := lt.pendAE[p]
+					delete(lt.pendAE, p)
+					lt.mu.Unlock()
+					idx := 0
+					if k := len(rec.req.Entries); k > 0 {
+						idx = int(rec.req.Entries[k-1].Index)
+					}
+					w.c.reset(-1, -1)
+					*rec.resp = raft.AppendEntriesResponse{RPCHeader: hdr(p, 10+p), Term: rec.req.Term, LastLog: uint64(idx), Success: true}
+					rec.done <- nil
+					step(fmt.Sprintf("K %d %d", p, idx), l.obsNow("n"))
+					st.Hist["ack-after-leadership-ended"]++
+				}
+				// whatever is still travelling to the followers now is lost: the routines see their stop signal
 				close(lt.closed)
 				synctest.Wait()
 			}
@@ -564,11 +592,14 @@ func runLeaderCase(rng *rand.Rand, thorough bool, out *bufio.Writer, st *stats, 
 				}
 			case y < 18:
 				c := apiCall{kind: 'c', cmd: rng.Intn(4), id: 1 + rng.Intn(6)}
-				for removed[c.id] {
+				for tries := 0; removed[c.id] && tries < 20; tries++ {
 					// (a server removed earlier in the run is not named again: the routines of its first
 					// life may still be around, and which of its two lives an answer belongs to is not
 					// something the stepped model follows)
 					c.id = 1 + rng.Intn(6)
+				}
+				if removed[c.id] {
+					c.cmd = 3 // (every id has been removed by now: removing one again is refused)
 				}
 				if c.cmd == 3 {
 					removed[c.id] = true
